@@ -81,6 +81,16 @@ func c08Data() map[string]interface{} {
 	}
 }
 
+// c08Shared is handed to every evaluation of the shared-data entries as the very same object.
+var c08Shared = map[string]interface{}{
+	"tags":  []string{"beta", "alpha", "gamma", "alpha"},
+	"nums":  []interface{}{3.0, 1.0, 2.0},
+	"srows": []map[string]interface{}{{"k": "r2"}, {"k": "r1"}},
+	"smap":  map[string]interface{}{"b": "B", "a": "A"},
+	"fss":   func(xs []string) (string, error) { return strings.Join(xs, "/"), nil },
+	"fsi":   func(xs []interface{}) (int, error) { return len(xs), nil },
+}
+
 var c08Pool = func() []poolEntry {
 	srcs := []string{
 		"1 + 2 * 3", "(a + b) / c % 7", "-x * +y", "~5 & 3 | 8 ^ 2", "10 / 4", "0.1 + 0.2 === 0.3", "1_000 + .5 + 2.e1",
@@ -128,6 +138,13 @@ var c08Pool = func() []poolEntry {
 			pool = append(pool, poolEntry{src: v.src, data: c08With(kv...)})
 		}
 	}
+	// data objects that are NOT rebuilt for every evaluation: an evaluation that reorders, truncates or
+	// rewrites a caller's slice or map changes what the next evaluation of the same tree sees
+	for _, s := range []string{"join(tags, ',') + (includes(tags, 'gamma') ? '!' : '?')", "includes(tags, 'alpha') + join(tags, '-')", "[max(nums...), min(nums...), nums]", "mapToArr(srows, 'k')",
+		"join(mapToArr(srows, 'k'), '+') + len(tags)", "[tags, nums, srows, smap.b + smap.a]", "left(join(tags, ''), 3) + right(join(tags, ''), 2)", "fss(tags) + fsi(nums)"} {
+		pool = append(pool, poolEntry{src: s, data: func() map[string]interface{} { return c08Shared }})
+	}
+	pool = append(pool, poolEntry{src: "u.name + '|' + u.Name + '|' + u.NAME + '|' + u.nAmE", data: c08With("u", map[string]interface{}{"Name": "alice", "NAME": "bob", "nom": "x"})})
 	for _, s := range []string{"$v = 1, $v", "[$v, $q, $m, $k]", "$nv ?? 'unset'", "$v = a + 1, $v * 2", "$m = 2, $k = 3, [$m, $k]", "this", "[a, s, n]"} {
 		pool = append(pool, poolEntry{src: s, data: c08Data, noData: true})
 	}
